@@ -321,6 +321,26 @@ func spawnerDrains(gs *ssa.Go) bool {
 		if u, ok := in.(*ssa.UnOp); ok && u.Op == token.ARROW && u.CommaOk {
 			return true
 		}
+		// the drain loop may live in a helper that is handed the channel (range over a parameter)
+		if call, ok := in.(*ssa.Call); ok {
+			cal := call.Common().StaticCallee()
+			if cal == nil || cal.Blocks == nil {
+				continue
+			}
+			args := call.Common().Args
+			for i, a := range args {
+				if _, isChan := a.Type().Underlying().(*types.Chan); !isChan || i >= len(cal.Params) {
+					continue
+				}
+				for _, b := range cal.Blocks {
+					for _, in2 := range b.Instrs {
+						if u, ok := in2.(*ssa.UnOp); ok && u.Op == token.ARROW && u.CommaOk && u.X == ssa.Value(cal.Params[i]) {
+							return true
+						}
+					}
+				}
+			}
+		}
 	}
 	return false
 }
